@@ -10,6 +10,7 @@ require (
 )
 
 require (
+	github.com/apache/beam v2.32.0+incompatible // indirect
 	github.com/golang/geo v0.0.0-20190916061304-5b978397cfec // indirect
 	github.com/golang/protobuf v1.5.3 // indirect
 	golang.org/x/mod v0.20.0 // indirect
